@@ -36,6 +36,7 @@ type retInfo struct {
 	reach Term
 	st    *State
 	vals  []Term
+	pos   string
 }
 
 type rangeRec struct {
